@@ -768,6 +768,27 @@ def r2_r3(ctx: Ctx, rep: Report):
                 if mk is not None:
                     rep.check(mk == limit, "C03.R2", "mask:%s:%s:%s" % (fn.short, norm(expr), nd), fn.loc(call), "{%s:0%dx}: the mask keeps all %d bits of the field" % (norm(expr), nd, 4 * nd),
                               bad="%s interpolates {%s:0%dx}: the mask 0x%X is not 0x%X, so the field does not carry the argument's two's complement (bits are dropped)" % (fn.short, norm(expr), nd, mk, limit))
+            # a field computed from one argument alone (value & 0xFFFF, value % 65536 ...) carries that argument's two's
+            # complement: checked by evaluating the expression for boundary values of the argument, negative ones included
+            free = {x.id for x in ast.walk(expr) if isinstance(x, ast.Name) and isinstance(x.ctx, ast.Load)}
+            if len(free) == 1 and not isinstance(expr, ast.Name) and next(iter(free)) in fn.params and not any(isinstance(x, (ast.Call, ast.Attribute, ast.Subscript)) for x in ast.walk(expr)):
+                pn = next(iter(free))
+                half = 16 ** nd // 2
+                samples = sorted({v for b in (0, 1, 2, 127, 128, 255, 256, 0x7FFE, 0x7FFF, half - 1, half, 16 ** nd - 2, 16 ** nd - 1) for v in (b, -b, -b - 1) if -half <= v <= 16 ** nd - 1})
+                wrong = None
+                try:
+                    for v in samples:
+                        got = prog.consteval(expr, fn.module, {pn: v})
+                        if not isinstance(got, int) or got % (16 ** nd) != v % (16 ** nd):
+                            wrong = (v, got)
+                            break
+                except NotConst:
+                    wrong = None
+                rep.check(wrong is None, "C03.R2", "twos-complement:%s:%s:%s" % (fn.short, norm(expr), nd), fn.loc(call),
+                          "{%s:0%dx} equals %s modulo 16^%d for the boundary values of the argument (%d samples, negative ones included)" % (norm(expr), nd, pn, nd, len(samples)),
+                          bad="%s interpolates {%s:0%dx}: for %s = %s the field is %s, not %s's two's complement 0x%0*X" % (
+                              fn.short, norm(expr), nd, pn, wrong[0] if wrong else "", ("0x%X" % wrong[1]) if wrong and isinstance(wrong[1], int) and wrong[1] >= 0 else (wrong[1] if wrong else ""), pn,
+                              nd, (wrong[0] % (16 ** nd)) if wrong else 0))
             if lo is None or lo < 0:
                 rep.violation("C03.R2", fkey, fn.loc(call), "%s interpolates {%s:0%dx} whose value may be negative (%s): format() yields a '-' and the frame cannot even be built (bytes.fromhex fails)" % (
                     fn.short, norm(expr), nd, why))
